@@ -58,7 +58,7 @@ type c21iConfig struct {
 	wbuf   int  // goleveldb write buffer of the producing handle (0: 64 KiB as in the first unit, so memtable flushes happen during the batch)
 	ticker bool // one body of the Center's ticker (mergePermanent + cleanRemoved) runs between the fill and the save phase
 	finish bool // the batch ends with MergeAllPermanent + cleanRemoved (without: the history ends with the last merge)
-	slices int  // the crash points of a log are split over this many work items (each produces the log itself)
+	slices int  // the crash points of a log are split over this many work items (each produces the log itself); journal-only configurations only
 }
 
 const (
@@ -269,9 +269,13 @@ func TestVerifC21I(t *testing.T) {
 			{name: "import-400+400-desc-journal", sizes: []int{400, 400}, order: "desc", wbuf: c21iJournalOnly, slices: 2},
 		}
 	default:
-		// NOTE work item i goes to shard i % 8: the three configurations with memtable flushes (many more crash
-		// points) are split into slices
+		// NOTE work item i goes to shard i % n: the three configurations with memtable flushes (10 times the crash
+		// points of the others) come first, so that they sit in three different shards; they are not sliced, because the
+		// moments of goleveldb's background memtable flush, so the operation sequence of the log, differ from run to run
 		configs = []c21iConfig{
+			{name: "import-400+400-asc", sizes: []int{400, 400}, order: "asc"},
+			{name: "import-400+400-desc-cache-finish", sizes: []int{400, 400}, order: "desc", cache: 512, finish: true},
+			{name: "import-400+400-rr-cache", sizes: []int{400, 400}, order: "rr", cache: 512},
 			{name: "import-400+400-asc-journal-finish", sizes: []int{400, 400}, order: "asc", wbuf: c21iJournalOnly, finish: true},
 			{name: "import-400+400-desc-journal-finish", sizes: []int{400, 400}, order: "desc", wbuf: c21iJournalOnly, finish: true},
 			{name: "import-400+400-rr-journal-finish", sizes: []int{400, 400}, order: "rr", wbuf: c21iJournalOnly, finish: true},
@@ -281,9 +285,6 @@ func TestVerifC21I(t *testing.T) {
 			{name: "import-200+200+200-desc-ticker-journal-finish", sizes: []int{200, 200, 200}, order: "desc", ticker: true, wbuf: c21iJournalOnly, finish: true},
 			{name: "import-0+700-asc-ticker-journal-finish", sizes: []int{0, 700}, order: "asc", ticker: true, wbuf: c21iJournalOnly, finish: true},
 			{name: "import-0+0-asc-finish", sizes: []int{0, 0}, order: "asc", finish: true},
-			{name: "import-400+400-asc", sizes: []int{400, 400}, order: "asc", slices: 5},
-			{name: "import-400+400-desc-cache-finish", sizes: []int{400, 400}, order: "desc", cache: 512, finish: true, slices: 5},
-			{name: "import-400+400-rr-cache", sizes: []int{400, 400}, order: "rr", cache: 512, slices: 5},
 		}
 	}
 
